@@ -146,7 +146,7 @@ func (env *SpecEnv) eval(e SExpr) Val {
 			env.fail("old() not available here")
 		}
 		n := env.with(env.old)
-		if env.topOld {
+		if env.topOld || (env.frame != nil && env.frame.fi != ex.top) {
 			// parameters denote their entry values inside old(); quantifier-bound names stay
 			n = n.child()
 			for k, v := range ex.topEnvBind {
@@ -270,6 +270,12 @@ func (env *SpecEnv) ident(name string) Val {
 			if owner != nil && owner.boxed[obj] {
 				return ex.loadStructPure(env.st, v.T, v.Go)
 			}
+			return v
+		}
+	}
+	// inside an inlined callee: parameters of the function under verification (entry values)
+	if env.frame != nil && env.frame.fi != ex.top {
+		if v, ok := ex.topEnvBind[name]; ok {
 			return v
 		}
 	}
@@ -1193,8 +1199,30 @@ func (env *SpecEnv) ghostUpdate(g *GhostUpd) {
 	if !ok {
 		// ghost local?
 		if id, ok := g.LHS.(*SIdent); ok {
+			if lam, isLam := g.RHS.(*SLambda); isLam {
+				// ghost local of sequence sort defined pointwise
+				c := env.child()
+				_, vs := env.resolveType(lam.Vars[0].Type)
+				n := fmt.Sprintf("lam_%s_%d", lam.Vars[0].Name, ex.qcounter())
+				c.bind[lam.Vars[0].Name] = Val{T: n, S: vs}
+				body := c.eval(lam.Body)
+				srt := ex.w.mapGSort(vs, body.S)
+				if vs.Kind == KInt {
+					ss := *ex.w.seqSort(body.S)
+					b2 := *body.S
+					b2.Go = body.Go
+					ss.Elem = &b2
+					srt = &ss
+				}
+				arr := ex.w.freshConst("glam", srt)
+				env.st.assume(fmt.Sprintf("(forall ((%s %s)) (! (= (select %s %s) %s) :pattern ((select %s %s))))", n, vs.Name, arr, n, body.T, arr, n))
+				ex.ghostLocals(env.st)[id.Name] = Val{T: arr, S: srt}
+				env.bind[id.Name] = Val{T: arr, S: srt}
+				return
+			}
 			v := env.eval(g.RHS)
 			ex.ghostLocals(env.st)[id.Name] = v
+			env.bind[id.Name] = v
 			return
 		}
 		env.fail("ghost update target must be x.field: %s", g.Src)
